@@ -9,10 +9,12 @@ enum E { Nil, True, False, Va, Num(String), Str(char, String), Name(String), Fie
          Un(&'static str, Box<E>), Bin(&'static str, Box<E>, Box<E>), Paren(Box<E>), Table(Vec<F>) }
 #[derive(Clone)]
 enum F { Pos(E), Named(String, E), Key(E, E) }
-enum S { Local(Vec<String>, Vec<E>), Assign(Vec<E>, Vec<E>), Call(E), Do(Vec<S>), While(E, Vec<S>), Repeat(Vec<S>, E), If(E, Vec<S>, Els),
-         NumFor(String, E, E, Option<E>, Vec<S>), GenFor(Vec<String>, Vec<E>, Vec<S>), Function(Vec<String>, Option<String>, Vec<String>, bool, Vec<S>),
-         LocalFunction(String, Vec<String>, bool, Vec<S>), Return(Vec<E>), Break }
-enum Els { No, Else(Vec<S>), ElseIf(E, Vec<S>, Box<Els>) }
+enum S { Local(Vec<String>, Vec<E>), Assign(Vec<E>, Vec<E>), Call(E), Do(B), While(E, B), Repeat(B, E), If(E, B, Els),
+         NumFor(String, E, E, Option<E>, B), GenFor(Vec<String>, Vec<E>, B), Function(Vec<String>, Option<String>, Vec<String>, bool, B),
+         LocalFunction(String, Vec<String>, bool, B), Return(Vec<E>), Break }
+struct Item { lead: Vec<(bool, String)>, blank: bool, s: S, trail: Option<String> }
+struct B { items: Vec<Item>, tail: Vec<(bool, String)> }
+enum Els { No, Else(B), ElseIf(E, B, Box<Els>) }
 
 const NAMES: &[&str] = &["a", "b", "foo", "bar", "x1", "_t", "self", "value", "idx", "T"];
 /// (quote used in the source, body as written between the quotes)
@@ -99,12 +101,28 @@ impl<'a> G<'a> {
         let f = if self.rng.chance(1, 3) { E::Field(Box::new(n), self.name()) } else { n };
         if self.rng.chance(1, 3) { E::Method(Box::new(f), self.name(), self.args(2, va)) } else { E::Call(Box::new(f), self.args(2, va)) }
     }
-    fn block(&mut self, depth: usize, va: bool, max: usize) -> Vec<S> {
-        let n = self.rng.below(max + 1);
-        let mut v: Vec<S> = (0..n).map(|_| self.stmt(depth, va)).collect();
-        if depth > 0 && self.rng.chance(1, 4) { v.push(if self.loops > 0 && self.rng.chance(1, 3) { S::Break } else { S::Return(self.exps(0, 2, va)) }); }
-        v
+    fn comment(&mut self) -> String { let n = self.rng.below(1000); match self.rng.below(6) { 0 => String::new(), 1 => format!(" c{} two words", n), 2 => format!("c{}", n), _ => format!(" c{}", n) } }
+    fn trivia(&mut self, first: bool) -> Vec<(bool, String)> {
+        let n = if self.rng.chance(1, 5) { 1 + self.rng.below(2) } else { 0 };
+        (0..n).map(|i| ((i > 0 || !first) && self.rng.chance(1, 3), self.comment())).collect()
     }
+    /// [tail_ok]: the block is closed by `end` / `until` / the end of the file (comments before `else` are outside L0)
+    fn block_t(&mut self, depth: usize, va: bool, max: usize, tail_ok: bool) -> B {
+        let n = self.rng.below(max + 1);
+        let mut stmts: Vec<S> = (0..n).map(|_| self.stmt(depth, va)).collect();
+        if depth > 0 && self.rng.chance(1, 4) { stmts.push(if self.loops > 0 && self.rng.chance(1, 3) { S::Break } else { S::Return(self.exps(0, 2, va)) }); }
+        let mut items = vec![];
+        for (i, st) in stmts.into_iter().enumerate() {
+            let lead = self.trivia(i == 0);
+            let blank = (i > 0 || !lead.is_empty()) && self.rng.chance(1, 5);
+            let trail = if self.rng.chance(1, 6) { Some(self.comment()) } else { None };
+            items.push(Item { lead, blank, s: st, trail });
+        }
+        // the flags of dangling comments are always honoured (no leading empty line is dropped in front of them)
+        let tail = if tail_ok { self.trivia(false) } else { vec![] };
+        B { items, tail }
+    }
+    fn block(&mut self, depth: usize, va: bool, max: usize) -> B { self.block_t(depth, va, max, true) }
     fn stmt(&mut self, depth: usize, va: bool) -> S {
         let deep = depth >= 3;
         match self.rng.below(if deep { 5 } else { 14 }) {
@@ -113,11 +131,16 @@ impl<'a> G<'a> {
             4 => S::Call(self.call_stmt(va)),
             5 => S::Do(self.block(depth + 1, va, 2)),
             6 => { let c = self.exp(2, va); self.loops += 1; let b = self.block(depth + 1, va, 2); self.loops -= 1; S::While(c, b) }
-            7 => { self.loops += 1; let b = self.block(depth + 1, va, 2); self.loops -= 1; S::Repeat(b, self.exp(2, va)) }
+            // comments before `until` are outside L0 (the formatter leaves them unindented and keeps the empty lines after them)
+            7 => { self.loops += 1; let b = self.block_t(depth + 1, va, 2, false); self.loops -= 1; S::Repeat(b, self.exp(2, va)) }
             8 | 9 => {
-                let c = self.exp(2, va); let t = self.block(depth + 1, va, 2);
-                let mut e = match self.rng.below(3) { 0 => Els::No, 1 => Els::Else(self.block(depth + 1, va, 2)), _ => Els::No };
-                for _ in 0..self.rng.below(3) { if self.rng.chance(1, 2) { e = Els::ElseIf(self.exp(1, va), self.block(depth + 1, va, 1), Box::new(e)); } }
+                let c = self.exp(2, va);
+                let mut e = match self.rng.below(3) { 1 => Els::Else(self.block(depth + 1, va, 2)), _ => Els::No };
+                for _ in 0..self.rng.below(3) {
+                    if self.rng.chance(1, 2) { let last = matches!(e, Els::No); e = Els::ElseIf(self.exp(1, va), self.block_t(depth + 1, va, 1, last), Box::new(e)); }
+                }
+                let last = matches!(e, Els::No);
+                let t = self.block_t(depth + 1, va, 2, last);
                 S::If(c, t, e)
             }
             10 => { let st = if self.rng.chance(1, 3) { Some(self.exp(1, va)) } else { None }; let (a, b) = (self.exp(1, va), self.exp(1, va)); self.loops += 1; let body = self.block(depth + 1, va, 2); self.loops -= 1; S::NumFor(self.name(), a, b, st, body) }
@@ -156,7 +179,10 @@ fn sx_e(e: &E) -> String {
 }
 fn sx_names(v: &[String]) -> String { format!("({})", v.iter().map(|n| hx(n)).collect::<Vec<_>>().join("_")) }
 fn sx_es(v: &[E]) -> String { format!("({})", v.iter().map(sx_e).collect::<Vec<_>>().join("_")) }
-fn sx_b(v: &[S]) -> String { format!("({})", v.iter().map(sx_s).collect::<Vec<_>>().join("_")) }
+fn sx_tv(v: &[(bool, String)]) -> String { format!("({})", v.iter().map(|(b, c)| format!("({}_{})", *b as u8, hx(c))).collect::<Vec<_>>().join("_")) }
+fn sx_b(b: &B) -> String {
+    format!("(blk_({})_{})", b.items.iter().map(|i| format!("(item_{}_{}_{}_{})", sx_tv(&i.lead), i.blank as u8, sx_s(&i.s), match &i.trail { Some(c) => format!("({})", hx(c)), None => "()".into() })).collect::<Vec<_>>().join("_"), sx_tv(&b.tail))
+}
 fn sx_els(e: &Els) -> String { match e { Els::No => "(noelse)".into(), Els::Else(b) => format!("(else_{})", sx_b(b)), Els::ElseIf(c, t, r) => format!("(elseif_{}_{}_{})", sx_e(c), sx_b(t), sx_els(r)) } }
 fn sx_s(s: &S) -> String {
     match s {
@@ -219,31 +245,64 @@ impl<'a> P<'a> {
         self.bl(); self.t("("); let mut all: Vec<String> = ps.to_vec(); if va { all.push("...".into()); }
         self.list(&all, |p, n| p.t(n)); self.t(")");
     }
-    fn block(&mut self, b: &[S]) { for s in b { self.ws(); self.s(s); if self.rng.chance(1, 6) { self.bl(); self.t(";"); } } self.ws(); }
+    /// blanks that do not end the line
+    fn hb(&mut self) { let w = *self.rng.pick(&["", " ", "\t", "  "]); self.out.push_str(w); }
+    /// ends the current line; [blank]: leaves an empty line as well; [loose]: extra empty lines may be added (they are dropped)
+    fn newline(&mut self, blank: bool, loose: bool) {
+        self.hb(); self.t("\n");
+        if blank { self.hb(); self.t("\n"); if self.rng.chance(1, 3) { self.hb(); self.t("\n"); } }
+        else if loose && self.rng.chance(1, 4) { self.hb(); self.t("\n"); }
+    }
+    fn own_comment(&mut self, c: &str) { self.hb(); self.t("--"); self.t(c); if self.rng.chance(1, 3) { self.t("  "); } }
+    /// the items of a block and its dangling comments; the caller has written the opening keyword and writes the closing one.
+    /// [fresh]: nothing but blanks precedes on the current line (start of the file)
+    fn block(&mut self, b: &B, fresh: bool) {
+        let mut fresh = fresh;          // true: we are at the start of a line
+        let mut first = true;           // nothing of the block has been written yet: empty lines here are dropped
+        for it in &b.items {
+            for (bl, c) in &it.lead {
+                if !fresh { self.newline(*bl, first); } else if *bl { self.hb(); self.t("\n"); }
+                self.own_comment(c); fresh = false; first = false;
+            }
+            if !it.lead.is_empty() || it.blank { if !fresh { self.newline(it.blank, false); } else if it.blank { self.hb(); self.t("\n"); } fresh = true; }
+            if fresh { self.hb(); } else { self.ws(); }
+            self.s(&it.s);
+            first = false; fresh = false;
+            match &it.trail {
+                Some(c) => { if self.rng.chance(1, 8) { self.bl(); self.t(";"); } self.t(" "); self.hb(); self.t("--"); self.t(c); if self.rng.chance(1, 3) { self.t(" \t"); } self.t("\n"); fresh = true; }
+                None => { if self.rng.chance(1, 6) { self.bl(); self.t(";"); } }
+            }
+        }
+        for (bl, c) in &b.tail {
+            if !fresh { self.newline(*bl, false); } else if *bl { self.hb(); self.t("\n"); }
+            self.own_comment(c); fresh = false; first = false;
+        }
+        if !b.tail.is_empty() { self.newline(false, true); self.hb(); } else if fresh { self.hb(); } else { self.ws(); }
+    }
     fn s(&mut self, s: &S) {
         match s {
             S::Local(ns, es) => { self.t("local"); self.ws(); self.names(ns); if !es.is_empty() { self.ws(); self.t("="); self.ws(); self.list(es, |p, x| p.e(x)); } }
             S::Assign(vs, es) => { self.list(vs, |p, x| p.e(x)); self.ws(); self.t("="); self.ws(); self.list(es, |p, x| p.e(x)); }
             S::Call(e) => self.e(e),
-            S::Do(b) => { self.t("do"); self.block(b); self.t("end"); }
-            S::While(c, b) => { self.t("while"); self.ws(); self.e(c); self.ws(); self.t("do"); self.block(b); self.t("end"); }
-            S::Repeat(b, c) => { self.t("repeat"); self.block(b); self.t("until"); self.ws(); self.e(c); }
+            S::Do(b) => { self.t("do"); self.block(b, false); self.t("end"); }
+            S::While(c, b) => { self.t("while"); self.ws(); self.e(c); self.ws(); self.t("do"); self.block(b, false); self.t("end"); }
+            S::Repeat(b, c) => { self.t("repeat"); self.block(b, false); self.t("until"); self.ws(); self.e(c); }
             S::If(c, t, e) => {
-                self.t("if"); self.ws(); self.e(c); self.ws(); self.t("then"); self.block(t);
+                self.t("if"); self.ws(); self.e(c); self.ws(); self.t("then"); self.block(t, false);
                 let mut cur = e;
                 loop {
                     match cur {
                         Els::No => break,
-                        Els::Else(b) => { self.t("else"); self.block(b); break; }
-                        Els::ElseIf(c2, t2, r) => { self.t("elseif"); self.ws(); self.e(c2); self.ws(); self.t("then"); self.block(t2); cur = r; }
+                        Els::Else(b) => { self.t("else"); self.block(b, false); break; }
+                        Els::ElseIf(c2, t2, r) => { self.t("elseif"); self.ws(); self.e(c2); self.ws(); self.t("then"); self.block(t2, false); cur = r; }
                     }
                 }
                 self.t("end");
             }
-            S::NumFor(v, a, b, st, body) => { self.t("for"); self.ws(); self.t(v); self.ws(); self.t("="); self.ws(); self.e(a); self.t(","); self.ws(); self.e(b); if let Some(x) = st { self.t(","); self.ws(); self.e(x); } self.ws(); self.t("do"); self.block(body); self.t("end"); }
-            S::GenFor(ns, es, body) => { self.t("for"); self.ws(); self.names(ns); self.ws(); self.t("in"); self.ws(); self.list(es, |p, x| p.e(x)); self.ws(); self.t("do"); self.block(body); self.t("end"); }
-            S::Function(p, m, ps, va, body) => { self.t("function"); self.ws(); self.t(&p.join(".")); if let Some(n) = m { self.t(":"); self.t(n); } self.params(ps, *va); self.block(body); self.t("end"); }
-            S::LocalFunction(n, ps, va, body) => { self.t("local"); self.ws(); self.t("function"); self.ws(); self.t(n); self.params(ps, *va); self.block(body); self.t("end"); }
+            S::NumFor(v, a, b, st, body) => { self.t("for"); self.ws(); self.t(v); self.ws(); self.t("="); self.ws(); self.e(a); self.t(","); self.ws(); self.e(b); if let Some(x) = st { self.t(","); self.ws(); self.e(x); } self.ws(); self.t("do"); self.block(body, false); self.t("end"); }
+            S::GenFor(ns, es, body) => { self.t("for"); self.ws(); self.names(ns); self.ws(); self.t("in"); self.ws(); self.list(es, |p, x| p.e(x)); self.ws(); self.t("do"); self.block(body, false); self.t("end"); }
+            S::Function(p, m, ps, va, body) => { self.t("function"); self.ws(); self.t(&p.join(".")); if let Some(n) = m { self.t(":"); self.t(n); } self.params(ps, *va); self.block(body, false); self.t("end"); }
+            S::LocalFunction(n, ps, va, body) => { self.t("local"); self.ws(); self.t("function"); self.ws(); self.t(n); self.params(ps, *va); self.block(body, false); self.t("end"); }
             S::Return(es) => { self.t("return"); if !es.is_empty() { self.t(" "); self.list(es, |p, x| p.e(x)); } }
             S::Break => self.t("break"),
         }
@@ -267,9 +326,9 @@ pub fn main(args: &[String]) {
     for k in 0..n {
         if k % shards != shard { continue; }
         let mut rng = Rng(seed.wrapping_mul(0x9E3779B97F4A7C15) ^ (k as u64).wrapping_mul(0xD1B54A32D192ED03) ^ 0x10);
-        let prog = { let mut g = G { rng: &mut rng, loops: 0 }; let mut v = vec![]; for _ in 0..1 + g.rng.below(5) { v.push(g.stmt(0, true)); } v };
+        let prog = { let mut g = G { rng: &mut rng, loops: 0 }; let mut b = g.block_t(0, true, 5, true); if b.items.is_empty() { let s = g.stmt(0, true); b.items.push(Item { lead: vec![], blank: false, s, trail: None }); } b };
         let tree = sx_b(&prog);
-        let src = { let mut p = P { rng: &mut rng, out: String::new() }; for s in &prog { p.s(s); if p.rng.chance(1, 6) { p.t(";"); } let w = *p.rng.pick(&["\n", " ", "\n", " \n"]); p.t(w); } p.out };
+        let src = { let mut p = P { rng: &mut rng, out: String::new() }; p.block(&prog, true); if !p.out.ends_with('\n') && p.rng.chance(3, 4) { p.t("\n"); } p.out };
         if !parses(&src, syntax("Lua51")) { unparsed += 1; println!("UNPARSED g{} {}", k, hex(src.as_bytes())); continue; }
         for (win, spaces, width) in [(0, 0, 4), (1, 0, 4), (0, 1, 1 + rng.below(8)), (1, 1, 1 + rng.below(8))] {
             let style = *rng.pick(&["AutoPreferDouble", "AutoPreferSingle", "ForceDouble", "ForceSingle"]);
